@@ -16,10 +16,11 @@ ASSUMPTIONS = [
     "Arc/Weak specification: the strong count of an allocation is the number of Arc handles that exist; "
     "Weak::upgrade succeeds iff it is non-zero and is atomic",
     "parking_lot::RwLock specification: a write guard excludes every other guard; try_write fails instead of waiting",
-    "handles produced by a running decode stay alive until the top-level decode call returns (they are owned by the "
-    "value under construction or by an equal, already interned value); interned_sharing_nested states the second half "
-    "as the hypothesis `IOk` on the decoder-side interner: a live value holds inner handles interned through the same "
-    "interner (not `Interned::new_duplicating` copies; otherwise the decoder can panic: finding F61, filed under C12)",
+    "handles produced by a running decode stay alive until the top-level decode call returns: a fact of the code since "
+    "/repo 8f43b2a (the decode session keeps a clone of each; finding F61, filed under C12, fixed); interned_sharing_nested "
+    "asks the live values of the decoder-side interner to be canonical (`IOk`), interned_sharing_nested_weak only asks "
+    "integrity (`IOkW`: live values may hold `Interned::new_duplicating` copies) and then speaks of the handles the decode "
+    "produced, not of what such a live value holds inside",
     "interned_sharing_nested / interned_sharing_with_live: no-collision hypothesis `hinj` over all handle payloads of the "
     "value (every depth) and of the decoder-side interner, as in C12's interned_roundtrip_nested",
 ]
@@ -136,7 +137,6 @@ def _nested(ctx, res, dist, boost=1):
             if k.startswith("nested"): nd[k] = nd.get(k, 0) + v
         nd["nested-hypothesis-violated"] = nd.get("nested-hypothesis-violated", 0) + r["distribution"]["interned_hypothesis_violated"]
         for f in r["oracle_failures"]:
-            if f["sig"] == "nested:live-newdup-inner": continue   # finding F61, filed under C12 (see ASSUMPTIONS: hypothesis IOk)
             if not any(g["sig"] == f["sig"] for g in res.oracle_failures): res.oracle_failures.append(f)
     dist["nested"] = nd
 
